@@ -9,6 +9,7 @@ import (
 	"strconv"
 	"strings"
 	"sync/atomic"
+	"time"
 
 	"github.com/gofiber/fiber/v3"
 	"github.com/gofiber/fiber/v3/client"
@@ -292,6 +293,9 @@ func (r *rig) roundTrip(p *probe) *outcome {
 	}
 	var resp *client.Response
 	var err error
+	// watchdog only (never decides a verdict on a healthy tree): a request the server cannot
+	// answer must not hang the shard until the driver's timeout
+	req.SetTimeout(60 * time.Second)
 	if p.src == sQuery || p.src == sHeader || p.src == sCookie {
 		resp, err = req.Get(rigURL)
 	} else {
